@@ -21,7 +21,7 @@ func DiscoverOnInterface(ifi *net.Interface, multicastDiscoveryAddress string, s
 	if err != nil {
 		return nil, err
 	}
-	defer socket.Close()
+	defer closeAndDrain(socket)
 
 	req, err := knxnet.NewSearchReq(socket.Addr())
 	if err != nil {
